@@ -963,6 +963,21 @@ class _DummyDispatcher:
         pass
 
 
+def real_middleware(A, kw):
+    """-> (adj, is the application wrapped by proxy_headers_middleware?)"""
+    from waitress.server import TcpWSGIServer
+    adj = A.Adjustments(**kw)
+    app = object()
+    srv = TcpWSGIServer(app, map={}, _start=False, _sock=_DummySock(), dispatcher=_DummyDispatcher(), adj=adj,
+                        sockinfo=(socket.AF_INET, socket.SOCK_STREAM, 6, ("127.0.0.1", 0)), bind_socket=False)
+    installed = srv.application is not app
+    try:
+        srv.trigger.close()
+    except Exception:
+        pass
+    return adj, installed
+
+
 def group_middleware(R):
     """server.py: the proxy-headers middleware is installed iff trusted_proxy or clear_untrusted_proxy_headers"""
     from waitress.server import TcpWSGIServer
@@ -973,15 +988,7 @@ def group_middleware(R):
                 kw["trusted_proxy"] = tp
             if clear is not None:
                 kw["clear_untrusted_proxy_headers"] = clear
-            adj = R.A.Adjustments(**kw)
-            app = object()
-            srv = TcpWSGIServer(app, map={}, _start=False, _sock=_DummySock(), dispatcher=_DummyDispatcher(), adj=adj,
-                                sockinfo=(socket.AF_INET, socket.SOCK_STREAM, 6, ("127.0.0.1", 0)), bind_socket=False)
-            installed = srv.application is not app
-            try:
-                srv.trigger.close()
-            except Exception:
-                pass
+            adj, installed = real_middleware(R.A, kw)
             R.evaluations += 1
             tp_truthy = bool(adj.trusted_proxy)
             cl = bool(adj.clear_untrusted_proxy_headers)
@@ -1088,6 +1095,18 @@ def group_hostport_defaults(R):
                         "Adjustments(%s) listens on %s, documented: %s:%d" % (", ".join("%s=%r" % kv for kv in kw), got, h, p),
                         {"kind": "kw", "kw": kw_tokens(kw), "expected": "listen " + want, "observed": "listen " + str(got)[:300],
                          "failing_input_found": True})
+    # documented proxy defaults: count 1; x-forwarded-proto when a proxy is trusted without headers
+    for kw, wc, wh in [([("trusted_proxy", "10.0.0.9")], "I1", "T" + cps("x-forwarded-proto")),
+                       ([("trusted_proxy", "*"), ("trusted_proxy_headers", "forwarded")], "I1", "T" + cps("forwarded")),
+                       ([("trusted_proxy", "*"), ("trusted_proxy_count", 3)], "I3", "T" + cps("x-forwarded-proto")),
+                       ([], "I1", "T")]:
+        real = R.kw_case("proxy-defaults", kw)
+        got = (real[1].get("trusted_proxy_count"), real[1].get("trusted_proxy_headers")) if real[0] == "OK" else (show(real), "")
+        if got != (wc, wh):
+            R.violation("proxy-defaults:%d" % len(kw), "Adjustments(%s): trusted_proxy_count/headers %s, documented %s" % (
+                ", ".join("%s=%r" % kv for kv in kw), got, (wc, wh)),
+                {"kind": "kw", "kw": kw_tokens(kw), "expected": "count %s headers %s" % (wc, wh), "observed": "count %s headers %s" % got,
+                 "failing_input_found": True})
     R.flush()
 
 
@@ -1203,6 +1222,11 @@ def replay_one(data):
             c = real_cli(A, data["argv"])
             print("runner form %r -> %s ; model said %s" % (data["argv"], show(c)[:400], data.get("model")))
             return 0 if show(c)[:2000] != data.get("observed") else 1
+        if kind == "middleware":
+            kw = {k: dec_token(t) for k, t in data["kw"]}
+            adj, installed = real_middleware(A, kw)
+            print("Adjustments(**%r): trusted_proxy=%r, middleware installed=%s" % (kw, adj.trusted_proxy, installed))
+            return 0 if (installed or not adj.trusted_proxy) else 1
         if kind == "docs":
             import importlib
             n = data["name"]
